@@ -151,8 +151,10 @@ class ipv4(packet_base):
         length = self.iplen
         if length > dlen:
             length = dlen # Clamp to what we've got
-        if self.frag != 0:
-            # We can't parse payloads!
+        if self.frag != 0 or (self.flags & ipv4.MF_FLAG):
+            # We can't parse payloads!  (This includes the first fragment:
+            # its transport header describes the whole datagram, so lengths
+            # and checksums must not be recomputed from this part of it.)
             self.next =  raw[self.hl*4:length]
         elif self.protocol == ipv4.UDP_PROTOCOL:
             self.next = udp(raw=raw[self.hl*4:length], prev=self)
